@@ -211,7 +211,8 @@ Section Refine.
       cbn [irun istep]. cbn [Spec.RobustSpec.abs_state i_conns i_now i_core].
       set (st1 := mkSt (s_now st + d) (s_conns st) (s_core st)).
       pose proof (iexpire_forget st1 Hs) as He. unfold Spec.RobustSpec.abs_state at 1 in He. cbn [st1 s_now s_conns s_core] in He.
-      subst st1. rewrite He. destruct (expire P cf _). cbn [fst snd]. rewrite app_nil_r. reflexivity.
+      subst st1. rewrite He. destruct (expire P cf _) as [st1 o1]. cbn [fst snd Spec.RobustSpec.abs_state i_core i_now i_conns].
+      destruct (o_tick P (s_core st1) d) as [k o2]. cbn [fst snd]. rewrite app_nil_r. reflexivity.
   Qed.
 
   (* C10, message-level isolation, unconditional: on every history from a reachable
@@ -236,7 +237,8 @@ Section Refine.
     filter (fun x => c_active x || (s_now st + d - c_since x <? auth_timeout cf)) (s_conns st).
   Proof.
     intros Hi. cbn [step]. unfold expire. cbn [s_now s_conns s_core].
-    rewrite (expire_list_filter (s_now st + d) (s_conns st) (s_core st) (pre_sorted _ _ (inv_pre _ _ Hi))). cbn [fst s_conns].
+    rewrite (expire_list_filter (s_now st + d) (s_conns st) (s_core st) (pre_sorted _ _ (inv_pre _ _ Hi))). cbn [fst s_conns s_core s_now].
+    destruct (o_tick P _ d) as [k o2]. cbn [fst s_conns].
     apply filter_ext. intros x. rewrite expired_forget. destruct (c_active x); cbn [negb andb orb]; [reflexivity|].
     destruct (auth_timeout cf <=? s_now st + d - c_since x) eqn:E1, (s_now st + d - c_since x <? auth_timeout cf) eqn:E2; cbn [negb]; try reflexivity; lia.
   Qed.
